@@ -217,30 +217,36 @@ func fmtErrorLocationBodyLine(isNativeModule bool, moduleName string, lineNum in
 //	如果代码不为空：
 //	   ^
 func fmtErrorSourceLineWithParser(p *syntax.Parser, cursorIdx int, withCursorMark bool) string {
-	startIdx := cursorIdx
-	endIdx := startIdx
+	source := p.GetSource()
+	// keep the cursor inside the source - an error at the end of input may point past the last char
+	if cursorIdx < 0 {
+		cursorIdx = 0
+	}
+	if cursorIdx > len(source) {
+		cursorIdx = len(source)
+	}
 	// append EOF to source to avoid index exceed exception
-	sourceT := append(p.GetSource(), 0)
-	for sourceT[startIdx] == syntax.RuneCR || sourceT[startIdx] == syntax.RuneLF {
+	sourceT := append(source, 0)
+	isLineBreak := func(idx int) bool {
+		return sourceT[idx] == syntax.RuneCR || sourceT[idx] == syntax.RuneLF
+	}
+
+	// a cursor on CR/LF belongs to the line before it
+	startIdx := cursorIdx
+	for startIdx > 0 && isLineBreak(startIdx) {
 		startIdx -= 1
 	}
+	endIdx := startIdx
 	// find prev until meeting first CR/LF
-	for startIdx > 0 {
-		if sourceT[startIdx] == syntax.RuneCR || sourceT[startIdx] == syntax.RuneLF {
-			startIdx += 1
-			// skip indent chars
-			for sourceT[startIdx] == syntax.RuneSP || sourceT[startIdx] == syntax.RuneTAB {
-				startIdx += 1
-			}
-			break
-		}
+	for startIdx > 0 && !isLineBreak(startIdx-1) {
 		startIdx -= 1
 	}
-	// find next until meeting first CR/LF
-	for endIdx < len(sourceT) {
-		if sourceT[endIdx] == syntax.RuneCR || sourceT[endIdx] == syntax.RuneLF {
-			break
-		}
+	// skip indent chars
+	for sourceT[startIdx] == syntax.RuneSP || sourceT[startIdx] == syntax.RuneTAB {
+		startIdx += 1
+	}
+	// find next until meeting first CR/LF (the appended EOF is not part of the line)
+	for endIdx < len(source) && !isLineBreak(endIdx) {
 		endIdx += 1
 	}
 
@@ -278,8 +284,13 @@ func fmtErrorMessageLine(code int, errName string, errMessage string) string {
 }
 
 func calcCursorOffset(text string, col int) int {
+	runes := []rune(text)
+	// keep the column inside the text: a cursor inside the indents counts as column 0
 	if col < 0 {
-		return col
+		col = 0
+	}
+	if col > len(runes) {
+		col = len(runes)
 	}
 	widthBorders := []int32{
 		126, 159, 687, 710, 711, 727, 733, 879, 1154, 1161,
@@ -308,7 +319,7 @@ func calcCursorOffset(text string, col int) int {
 		}
 		return 1
 	}
-	for _, t := range []rune(text)[:col] {
+	for _, t := range runes[:col] {
 		offsets = offsets + getOffset(t)
 	}
 
